@@ -814,4 +814,36 @@ def projected_once(repo: Repo) -> RuleRun:
 projected_once.rule_id = "C06.PROJECTED-ONCE"
 
 
-RULES = [sections, side_tables, vertex_ownership, assemble_walk, patch_state, delete_skip, geometry_label, precision, user_state_survives, grading_form, geometry_redeclared, vertex_tolerance, grade_idempotent, live_lengths, axis_table, corner_patches, empty_patch, side_addressing, no_class_state, geometry_role_free, labels_private, projected_once]
+def side_identity(repo: Repo) -> RuleRun:
+    """'every patch quad ... is a side of some block' - once: two blocks name their common face with the same four vertices in
+    different orders, so a side is identified by the SET of its vertices. Abstract run of Side.__eq__."""
+    r = RuleRun(PROP, "C06.SIDE-IDENTITY", floor=4, what="Side.__eq__ compares the sets of vertex indexes: equal for every order of the same four vertices, unequal otherwise")
+    cls = repo.cls("items.side.Side")
+    fn = repo.find_method(cls, "__eq__")
+    r.require(fn is not None, "Side.__eq__ vanished")
+
+    def side(name, idx):
+        s_ = Obj(name, cls=cls)
+        s_.set("vertices", [Obj(f"v{i}", index=i) for i in idx])
+        return s_
+
+    for label, a, b, want in (
+        ("same order", [4, 5, 6, 7], [4, 5, 6, 7], True),
+        ("the neighbour's numbering: rotated start", [4, 5, 6, 7], [5, 6, 7, 4], True),
+        ("the neighbour's numbering: opposite sense", [4, 5, 6, 7], [7, 6, 5, 4], True),
+        ("arbitrary permutation", [4, 5, 6, 7], [6, 4, 7, 5], True),
+        ("another face sharing an edge", [4, 5, 6, 7], [4, 5, 1, 0], False),
+        ("disjoint", [0, 1, 2, 3], [4, 5, 6, 7], False),
+    ):
+        try:
+            got = Evaluator(repo=repo, module=fn.module).call_funcinfo(fn, [side("s1", a), side("s2", b)])
+        except (Raised, NotEvaluable) as err:
+            raise AnalysisError(f"Side.__eq__ not evaluable: {err}") from err
+        r.check(got is want, fn, f"{label}: {got}", f"Side.__eq__ for vertex lists {a} and {b} ({label}) gives {got!r}; expected {want}: an internal face that both neighbours assign to a patch / project is written twice (or two different faces are taken for one)", fn.node, key=f"eq:{label}")
+    return r
+
+
+side_identity.rule_id = "C06.SIDE-IDENTITY"
+
+
+RULES = [sections, side_tables, vertex_ownership, assemble_walk, patch_state, delete_skip, geometry_label, precision, user_state_survives, grading_form, geometry_redeclared, vertex_tolerance, grade_idempotent, live_lengths, axis_table, corner_patches, empty_patch, side_addressing, no_class_state, geometry_role_free, labels_private, projected_once, side_identity]
